@@ -418,7 +418,7 @@ def enclosing_fn(text_lines, line):
 
 
 def run_verus(path, rlimit=None, timeout=900, extra=()):
-    cmd = ["verus", path, "--output-json", "--time", "--multiple-errors", "20", "--triggers-mode", "silent"]
+    cmd = ["verus", path, "--output-json", "--time", "--multiple-errors", "20", "--triggers-mode", "silent", "--num-threads", "8"]
     if rlimit:
         cmd += ["--rlimit", str(rlimit)]
     cmd += list(extra)
